@@ -219,9 +219,34 @@ MUTANTS = [
     {'name': 'F3 resume without argument leaves the slot untouched', 'prop': 'C09', 'expect': 'F3 / load_fiber',
      'edits': [(VM, "        } else {\n            self.poke(0, arg.unwrap_or_default());\n        }\n\n        self.load_frame();",
                 "        } else if let Some(arg) = arg {\n            self.poke(0, arg);\n        }\n\n        self.load_frame();")]},
+    # ---- C10 ----------------------------------------------------------------------------------------
+    {'name': 'V1 optimised build skips formatting of numbers', 'prop': 'C10', 'expect': 'yarel::vm::Vm::format_string_impl / cfg!#0',
+     'edits': [(VM, "        if value.try_as_obj_string().is_some() {\n            return;\n        }",
+                "        if value.try_as_obj_string().is_some() {\n            return;\n        }\n        if cfg!(not(debug_assertions)) && value.try_as_number().is_some() {\n            self.poke(0, Value::None);\n            return;\n        }")]},
+    {'name': 'V1 trace feature guards a stack effect', 'prop': 'C10', 'expect': 'yarel::vm::Vm::run / cfg!#0',
+     'edits': [(VM, "                debug::disassemble_instruction(&self.active_chunk, offset);\n            }",
+                "                debug::disassemble_instruction(&self.active_chunk, offset);\n                self.handling_exception = false;\n            }")]},
+    {'name': 'V1 checked stack pop returns a default instead of the slot', 'prop': 'C10', 'expect': 'yarel::stack::Stack::<T, N>::peek / cfg!#0',
+     'edits': [(STACK, '''    pub(crate) fn peek(&self, depth: usize) -> &T {
+        if cfg!(any(debug_assertions, feature = "safe_stack")) && depth >= self.len() {
+            panic!("Stack index out of range.");
+        }''', '''    pub(crate) fn peek(&self, depth: usize) -> &T {
+        if cfg!(any(debug_assertions, feature = "safe_stack")) && depth >= self.len() {
+            return &self.stack[0];
+        }''')]},
+    {'name': 'V2 debug_assert on persistent interpreter state', 'prop': 'C10', 'expect': 'V2 / yarel::vm::Vm::add_chunk / debug_assert',
+     'edits': [(VM, "        let root = Root::new(chunk);\n        let ret = root.as_gc();\n        self.chunks.push(root);",
+                "        let root = Root::new(chunk);\n        let ret = root.as_gc();\n        debug_assert!(self.chunks.len() < 64);\n        self.chunks.push(root);")]},
+    {'name': 'V3 function that exists only in checked builds', 'prop': 'C10', 'expect': 'V3[rel] / yarel::vm::Vm::check_invariants',
+     'edits': [(VM, "    pub fn native_arg(&self, index: usize) -> Value {", "    #[cfg(debug_assertions)]\n    pub fn check_invariants(&self) -> bool {\n        self.fiber.is_some()\n    }\n\n    pub fn native_arg(&self, index: usize) -> Value {")]},
+    {'name': 'V4 raw fiber pointer not updated on yield (optimised world only)', 'prop': 'C10', 'expect': 'F1[rel] / yarel::vm::Vm::unload_fiber',
+     'edits': [(VM, "            self.unsafe_fiber = (*caller).as_ptr();\n", "")]},
 ]
 
 BENIGN = [
+    {'name': 'new trace-only cfg! print', 'prop': 'C10',
+     'edits': [(VM, "        let arg_count = self.read_byte() as usize;\n        self.call_value(self.peek(arg_count), arg_count)",
+                "        let arg_count = self.read_byte() as usize;\n        if cfg!(feature = \"debug_trace\") {\n            println!(\"call with {} args\", arg_count);\n        }\n        self.call_value(self.peek(arg_count), arg_count)")]},
     {'name': 'wrapper around try_handle_error', 'prop': 'C08',
      'edits': [(VM, '''            let err = error!(ErrorKind::TypeError, "Unary operand must be a number.");
             self.try_handle_error(err)?;
